@@ -52,7 +52,7 @@ CHECKS['C13'] = dict(engine='xenum', technique='bounded-exhaustive enumeration o
 _FS = dict(build_id='fixed_string', engine='xstate', technique='explicit-state model checking of the real object: fixed point over object images x complete argument alphabet, std::string as reference model',
     level_note='trusts AddressSanitizer shadow checks (report functions interposed by the harness), libstdc++ std::string as reference; capacities <= 7 plus 255/256 with thinned arguments',
     harness=['harness/c10_fixed_string.cpp'] + [dict(src='harness/c10_fixed_string.cpp', tag='L%d' % l, defs=['-DVF_CAP=%d' % l, '-DVF_THIN=%d' % t])
-                                                for l, t in ((1, 0), (2, 0), (3, 0), (4, 0), (5, 1), (7, 1), (255, 1), (256, 1))], flags='asanrec', lib=False, level='model_checking', extra_ldflags=['-ldl'],
+                                                for l, t in ((1, 0), (2, 0), (3, 0), (4, 0), (5, 0), (7, 1), (255, 1), (256, 1))], flags='asanrec', lib=False, level='model_checking', extra_ldflags=['-ldl'],
     deadline={'quick': 150, 'thorough': 1800}, hang_s=60, quiet_stderr=True,
     bound={'quick': 'capacities L=1,2,3: full operation alphabet, positions/counts {0..L+2, 2L+3, SIZE_MAX/2, npos-2, npos-1, npos}, sources = all strings over {a,b} up to L+2 as const char*/std::string/FixedString<L-1|L|L+2>; state set closed (fixed point)',
            'thorough': 'quick + L=4 (full alphabet) + L=5,7,255,256 (thinned argument domains around 0,1,L-1,L,L+1 and the length-type boundary)'},
@@ -141,3 +141,12 @@ CHECKS['C06'] = dict(title='Multi-value destinations end up as the fold of all v
     rule='kind x options (odometer) x element sequence x cut (2^(n-1) compositions) x free-value form; states = option configurations accepted by the destination, transitions = evalArguments calls; all cuts of one sequence are compared with the same fold',
     bound={'quick': 'sequences <= 3 over {0,1,2,7} / {a,b,B}; separators , ;', 'thorough': 'sequences <= 4; separators , ; .'},
     assumptions=['option combinations a destination refuses at definition time are skipped and counted', 'unordered containers are compared as multisets'])
+
+CHECKS['C07'] = dict(title='Arguments from a string, a file or the environment equal the same words on argv', engine='xenum',
+    harness=['harness/c07_sources.cpp'], flags='asan', lib=True, level='model_checking', deadline={'quick': 300, 'thorough': 2400}, hang_s=60,
+    technique='bounded-exhaustive enumeration: all word lists over a quoting alphabet x all escape styles (inverse property); all abstract lines x ALL splits of their uses over argv/file/argument-file/environment x file layouts',
+    level_text='quoting: every list of <= 3 words over {a, blank, single quote, double quote, backslash} in 4 escape styles per word; sources: every line of <= 2 (quick) / <= 3 (thorough) uses, every assignment of each use to one of the 4 sources, 2 file layouts x 4 comment/empty-line decorations, compared with the abstract evaluator (verdict and values)',
+    level_note=_ARGS_NOTE + '; file lines are newline-terminated (a last line without newline is outside); real files in a private per-worker HOME',
+    rule='part 1: word list x style vector (odometer); part 2: configuration x use sequence x source vector in {A,P,F,E}^n x layout x decoration; states = cases, transitions = make_arg_array/evalArguments calls',
+    bound={'quick': 'words <= 3 chars, lists <= 3 (3rd level single chars); lines <= 2 uses', 'thorough': 'lists of 3 with words <= 2 chars; lines <= 3 uses'},
+    assumptions=['the environment variable is $PROG (upper-cased program name), HOME is a scratch directory owned by the worker'])
